@@ -565,6 +565,12 @@ def _execute_defs(spec, world, shape, res):
         if st["op"] == "mutate":
             r = history.apply(shape, st["m"], world)
             C["defs_mutations_" + r["outcome"]] += 1
+            if r["outcome"] == "ok" and (st["m"].get("arg") or {}).get("kind") == "bad" and not (
+                    st["m"].get("prop") == "radius" and st["m"]["arg"].get("bad") == "zero"):
+                # an invalid target was accepted: whether that is allowed is C08's clause;
+                # the state that results is not one the definitions are judged on
+                C["defs_invalid_target_accepted"] += 1
+                break
             log.add("mutate", si, st["m"].get("prop") or st["m"].get("name"), r["outcome"])
             try:
                 g = history.geometry(shape)
